@@ -6,7 +6,14 @@ package control
 //            builders) : Dns.RequestSelect / Dns.ResponseSelect == reference;
 //   level 2  DnsController.HandleWithResponseWriter_ with the real routing and
 //            recording fake forwarders: upstream call sequence, final reply,
-//            reject-with-primed-cache, bounded re-asks.
+//            reject-with-primed-cache, bounded re-asks, the same name coming back
+//            with another qtype;
+//   level 2f the same flow with a fault between "upstream answered" and "response
+//            routed" (generation cancelled / client cancelled / work budget
+//            expired) followed by retries on the same controller and on the
+//            successor generation sharing the store (verifC07Fault*).
+// The daedns Router (dae's own lookups) is monitored by part daedns
+// (component/daedns/c07_daedns_verif_test.go).
 // The oracle is verifkit.RefDns* (written from docs/en/configuration/dns.md).
 
 import (
@@ -189,6 +196,10 @@ type verifC07Net struct {
 	host2tag map[string]string
 	book     map[string][]vk.DRR
 	calls    []verifC07Call
+	// fault scripting (verifC07Fault*)
+	honorCtx bool                      // like a real transport: a call on an ended context fails with the context's error
+	dead     int                       // calls refused that way
+	onAnswer func(nth int, tag string) // runs when the nth (0-based) answered call has its answer ready, before it is handed back; not under mu
 }
 
 type verifC07Forwarder struct {
@@ -204,7 +215,13 @@ func (f *verifC07Forwarder) ForwardDNS(ctx context.Context, data []byte) (*dnsme
 		return nil, fmt.Errorf("fake upstream: cannot unpack query: %w", err)
 	}
 	f.n.mu.Lock()
-	defer f.n.mu.Unlock()
+	if f.n.honorCtx {
+		if err := ctx.Err(); err != nil {
+			f.n.dead++
+			f.n.mu.Unlock()
+			return nil, err
+		}
+	}
 	tag, ok := f.n.host2tag[f.host]
 	if !ok {
 		tag = "?" + f.host
@@ -213,6 +230,7 @@ func (f *verifC07Forwarder) ForwardDNS(ctx context.Context, data []byte) (*dnsme
 	if len(req.Question) > 0 {
 		c.Name, c.Qtype = req.Question[0].Name, req.Question[0].Qtype
 	}
+	nth := len(f.n.calls)
 	f.n.calls = append(f.n.calls, c)
 	resp := new(dnsmessage.Msg)
 	resp.SetReply(&req)
@@ -220,10 +238,19 @@ func (f *verifC07Forwarder) ForwardDNS(ctx context.Context, data []byte) (*dnsme
 	if len(req.Question) > 0 {
 		resp.Answer = verifC07RRs(req.Question[0].Name, f.n.book[tag])
 	}
+	hook := f.n.onAnswer
+	f.n.mu.Unlock()
+	if hook != nil {
+		hook(nth, tag)
+	}
 	return resp, nil
 }
 
 var verifC07Cur *verifC07Net
+
+// verifC07ByHost: scripted networks of controllers that run concurrently with the main loop
+// (upstream host -> *verifC07Net); every other upstream host belongs to verifC07Cur.
+var verifC07ByHost sync.Map
 
 type verifC07Writer struct {
 	msg *dnsmessage.Msg
@@ -272,6 +299,7 @@ func verifC07Option() *DnsControllerOption {
 
 type verifC07Obs struct {
 	Calls   []verifC07Call
+	Dead    int `json:",omitempty"` // upstream calls refused because their context had already ended
 	Err     string
 	Replied bool
 	Answer  []string // sorted "type:data"
@@ -319,9 +347,14 @@ var verifC07Req = &udpRequest{
 
 // verifC07Ask sends one question through the controller.
 func verifC07Ask(ctrl *DnsController, n *verifC07Net, q vk.DQuestion, book map[string][]vk.DRR, id uint16) (o verifC07Obs) {
+	return verifC07AskCtx(context.Background(), ctrl, n, verifC07Req, q, book, id)
+}
+
+func verifC07AskCtx(ctx context.Context, ctrl *DnsController, n *verifC07Net, from *udpRequest, q vk.DQuestion, book map[string][]vk.DRR, id uint16) (o verifC07Obs) {
 	n.mu.Lock()
 	n.book = book
 	n.calls = nil
+	n.dead = 0
 	n.mu.Unlock()
 	query := new(dnsmessage.Msg)
 	query.Id = id
@@ -334,12 +367,13 @@ func verifC07Ask(ctrl *DnsController, n *verifC07Net, q vk.DQuestion, book map[s
 				o.Panic = fmt.Sprint(r)
 			}
 		}()
-		if err := ctrl.HandleWithResponseWriter_(context.Background(), query, verifC07Req, w); err != nil {
+		if err := ctrl.HandleWithResponseWriter_(ctx, query, from, w); err != nil {
 			o.Err = err.Error()
 		}
 	}()
 	n.mu.Lock()
 	o.Calls = append([]verifC07Call(nil), n.calls...)
+	o.Dead = n.dead
 	n.mu.Unlock()
 	if w.msg != nil {
 		o.Replied = true
@@ -455,28 +489,80 @@ func verifC07DecidedSig(rules []vk.DRule, idx int, out string) (sig string, nont
 // ---- the monitor --------------------------------------------------------------
 
 func TestVerifC07(t *testing.T) {
-	m := vk.NewMonitor("C07", "", "exploration",
+	m := vk.NewMonitor("C07", "main", "exploration",
 		"grammar-generated `dns { upstream routing{request,response} }` sections (text) x questions/answers derived from the program constants (case, trailing dot, boundary qtypes, boundary addresses); "+
-			"level 1 compares Dns.RequestSelect/ResponseSelect, level 2 the DnsController flow (upstream call sequence, reply, reject with primed cache, bounded re-asks) with the reference interpreter; "+
-			"distinct = (level, shape of the deciding rule or fallback kind, answering-upstream kind) and for level 2 (final verdict, number of upstream calls, request decision kind); "+
+			"level 1 compares Dns.RequestSelect/ResponseSelect, level 2 the DnsController flow (upstream call sequence, reply, reject with primed cache, bounded re-asks, same name asked again with another qtype) with the reference interpreter; "+
+			"level 2f injects a fault (generation cancelled, client cancelled, 5 s work budget expired) from inside the scripted upstream as it returns an answer the response rules reject or re-ask, then retries on the same controller and on the ReuseForReload successor: no client may be given records the reference walk does not end in; "+
+			"distinct = (level, shape of the deciding rule or fallback kind, answering-upstream kind), for level 2 (final verdict, number of upstream calls, request decision kind), for level 2f (fault kind, call struck, its response decision, final verdict); "+
 			"non-trivial = decided at a non-first rule, by a negated or multi-condition rule, or at the fallback of a program with rules; level 2: every walk")
 	m.SetFloor(150)
 	m.Assume("reference interpreter verifkit.RefDnsRequest/RefDnsResponse/RefDnsWalk is the documented first-match semantics (docs/en/configuration/dns.md); internal selectors sub/node/subnode never decide an ordinary question",
 		"the bound on upstream calls per question is dae's own constant MaxDnsLookupDepth (calls <= MaxDnsLookupDepth; chains that finish within it must complete)",
 		"level 2 runs NewDnsController + dns.New with fake forwarders installed through the package variable dnsForwarderFactory and a fixed BestDialerChooser; no sockets, no bpf callbacks",
-		"domain pattern matching itself (C11) is exercised only with the small pattern pool of the routing generator")
+		"domain pattern matching itself (C11) is exercised only with the small pattern pool of the routing generator",
+		"level 2f: the fake forwarder fails a call made on an already ended context the way a real transport does; the work context of a resolution is the context dialSend hands to BestDialerChooser; while a fault lasts an error or no reply is always acceptable, only records a client is given are judged")
 
 	r := vk.NewRand(0xC07)
 	gen := &vk.DGen{R: r, Internal: true, LongReq: 8}
 	nprog := vk.Scale(1500, 30000)
 	nq := vk.Scale(40, 60)
-	nflow := vk.Scale(14, 20)
+	nflow := vk.Scale(16, 22)
 
 	origFactory := dnsForwarderFactory
 	defer func() { dnsForwarderFactory = origFactory }()
 	dnsForwarderFactory = func(upstream *dns.Upstream, dialArg dialArgument, _ *logrus.Logger) (DnsForwarder, error) {
+		if n, ok := verifC07ByHost.Load(upstream.Hostname); ok {
+			return &verifC07Forwarder{n: n.(*verifC07Net), host: upstream.Hostname}, nil
+		}
 		return &verifC07Forwarder{n: verifC07Cur, host: upstream.Hostname}, nil
 	}
+
+	// the work budget of a resolution (5 s, dae's own constant) runs out while an upstream is
+	// answering: a few such cases run beside the main loop, each on its own controller and its own
+	// scripted network (upstream hosts 10.77.<case>.<i>)
+	var bg sync.WaitGroup
+	nbudget := vk.Scale(3, 10)
+	for c := 0; c < nbudget; c++ {
+		var p *vk.DProg
+		var pl *verifC07FaultPlan
+		for try := 0; try < 400 && pl == nil; try++ {
+			p = gen.Gen()
+			tags := []string{"asis"}
+			for k := range p.Upstreams {
+				scheme := "udp"
+				if strings.HasPrefix(p.Upstreams[k].Link, "tcp") {
+					scheme = "tcp"
+				}
+				p.Upstreams[k].Host = fmt.Sprintf("10.77.%d.%d", c, k+1)
+				p.Upstreams[k].Link = scheme + "://" + p.Upstreams[k].Host + ":53"
+				tags = append(tags, p.Upstreams[k].Tag)
+			}
+			pl = verifC07FaultPlanFor(r, p, vk.DProbeQuestions(p, r, 20), tags, false)
+		}
+		if pl == nil {
+			continue
+		}
+		b, err := verifC07Build(p)
+		if err != nil {
+			m.Violation("build-error", "well-formed generated dns section rejected or crashed: "+err.Error(), map[string]any{"text": p.Text(), "error": err.Error()})
+			continue
+		}
+		asis := fmt.Sprintf("192.0.2.%d", 100+c)
+		n := &verifC07Net{host2tag: map[string]string{asis: "asis"}, honorCtx: true}
+		verifC07ByHost.Store(asis, n)
+		for _, u := range p.Upstreams {
+			n.host2tag[u.Host] = u.Tag
+			verifC07ByHost.Store(u.Host, n)
+		}
+		from := &udpRequest{realSrc: netip.MustParseAddrPort("192.0.2.10:41000"), realDst: netip.MustParseAddrPort(asis + ":53"), routingResult: &bpfRoutingResult{}}
+		rc := vk.NewRand(0xC07F00 + uint64(c))
+		bg.Add(1)
+		go func() {
+			defer bg.Done()
+			verifC07FaultCase(m, rc, p, b, pl, "budget-expired", n, from)
+		}()
+	}
+	defer bg.Wait()
 
 	for i := 0; i < nprog && m.Violations() < 5; i++ {
 		p := gen.Gen()
@@ -618,18 +704,37 @@ func TestVerifC07(t *testing.T) {
 		// ---------- level 2: controller flow ----------
 		verifC07Flow(m, r, p, b, qs, tags, nflow)
 
+		// ---------- level 2f: a fault between "upstream answered" and "response routed" ----------
+		if pl := verifC07FaultPlanFor(r, p, qs, tags, i%4 == 0); pl != nil {
+			n := &verifC07Net{host2tag: map[string]string{verifC07AsIsHost: "asis"}, honorCtx: true}
+			for _, u := range p.Upstreams {
+				n.host2tag[u.Host] = u.Tag
+			}
+			verifC07Cur = n
+			mode := "generation-cancelled"
+			if r.IntN(4) == 0 {
+				mode = "client-cancelled"
+			}
+			verifC07FaultCase(m, r, p, b, pl, mode, n, verifC07Req)
+		}
+
 		if m.WantSample() && len(qs) > 0 {
 			ref, _ := vk.RefDnsRequest(p, qs[0])
 			m.Sample(map[string]any{"text": p.Text(), "qname": qs[0].Name, "qtype": qs[0].Qtype, "request_reference": ref})
 		}
 	}
+	bg.Wait()
 	m.Set("max_dns_lookup_depth", MaxDnsLookupDepth)
 	m.Require("l1_request_decided_by_fallback", "l1_request_decided_by_nonfirst_rule", "l1_request_reject",
 		"l1_request_decided_after_internal_rule",
 		"l1_response_decided_by_fallback", "l1_response_decided_by_nonfirst_rule",
 		"l1_response_deciding_leaf_ip", "l1_response_deciding_leaf_upstream", "l1_response_deciding_leaf_qname", "l1_response_deciding_leaf_qtype",
 		"l2_final_request-reject", "l2_final_accept", "l2_final_reject", "l2_final_too-deep", "l2_calls_2", "l2_calls_3",
-		"l2_reject_with_primed_cache_checked")
+		"l2_reject_with_primed_cache_checked",
+		"l2_asked_after_same_name_with_other_qtype_routed_differently",
+		"l2f_fault_while_answer_to_be_rejected", "l2f_fault_while_answer_to_be_reasked",
+		"l2f_mode_generation-cancelled", "l2f_mode_client-cancelled", "l2f_mode_budget-expired",
+		"l2f_judged_retry-on-retired-generation", "l2f_judged_successor-generation", "l2f_judged_retry-after-budget-expired", "l2f_judged_retry-after-client-cancelled")
 	m.Done(t)
 }
 
@@ -654,16 +759,42 @@ func verifC07Flow(m *vk.Monitor, rr *rand.Rand, p *vk.DProg, b *verifC07Built, q
 	}
 	var cand *primed
 	id := uint16(100)
+	// histories: the same name (respelled) comes back with another qtype through the same
+	// controller; every question is routed on its own (name, qtype)
+	var fq []vk.DQuestion
 	for _, q := range qs {
+		fq = append(fq, q)
+		if strings.HasSuffix(q.Name, ".") && rr.IntN(3) == 0 {
+			if t := []uint16{1, 28, 65}[rr.IntN(3)]; t != q.Qtype {
+				fq = append(fq, vk.DQuestion{Name: verifC07Respell(q.Name, rr), Qtype: t})
+			}
+		}
+	}
+	askedTypes := map[string]map[uint16]bool{}
+	for _, q := range fq {
 		if nflow == 0 {
 			break
 		}
-		key := strings.ToLower(verifC07Fqdn(q.Name)) + fmt.Sprint(q.Qtype)
+		lname := strings.ToLower(verifC07Fqdn(q.Name))
+		key := lname + fmt.Sprint(q.Qtype)
 		if seen[key] || !strings.HasSuffix(q.Name, ".") {
 			continue // names on the wire are fully qualified; one ask per cache key
 		}
 		seen[key] = true
 		nflow--
+		if len(askedTypes[lname]) > 0 {
+			m.Count("l2_asked_after_same_name_with_other_qtype", 1)
+			a, _ := vk.RefDnsRequest(p, q)
+			for t := range askedTypes[lname] {
+				if b, _ := vk.RefDnsRequest(p, vk.DQuestion{Name: q.Name, Qtype: t}); a != b {
+					m.Count("l2_asked_after_same_name_with_other_qtype_routed_differently", 1)
+					break
+				}
+			}
+		} else {
+			askedTypes[lname] = map[uint16]bool{}
+		}
+		askedTypes[lname][q.Qtype] = true
 		book := map[string][]vk.DRR{}
 		for _, tg := range tags {
 			book[tg] = vk.DProbeAnswer(p, q, rr)
@@ -917,4 +1048,306 @@ func verifC07LazyWindow(m *vk.Monitor, r interface{ IntN(int) int }, p *vk.DProg
 	default:
 		m.Count("l1b_second_question_other_outcome", 1)
 	}
+}
+
+func verifC07Respell(name string, r interface{ IntN(int) int }) string {
+	b := []byte(name)
+	for i := range b {
+		switch {
+		case b[i] >= 'a' && b[i] <= 'z' && r.IntN(2) == 0:
+			b[i] -= 32
+		case b[i] >= 'A' && b[i] <= 'Z' && r.IntN(2) == 0:
+			b[i] += 32
+		}
+	}
+	return string(b)
+}
+
+// ---- level 2f: a fault between "upstream answered" and "response routed" ---------------------
+//
+// The scripted upstream ends a context of the resolution right as it hands back its answer: the
+// generation's lifecycle context (reload / close retiring the generation), the client's own
+// context, or nothing at all while it sits on the answer until dae's work budget has run out.
+// Whatever a client is given afterwards - by the same controller, or by the successor generation
+// that ReuseForReload puts on the same store - has to be what the response rules make of the
+// upstream answers: records only if the reference walk accepts exactly them, never records when
+// the walk ends in reject; once the controller is healthy again the reference outcome itself.
+// While the fault lasts an error / no reply is always fine.
+
+type verifC07FaultPlan struct {
+	q    vk.DQuestion
+	book map[string][]vk.DRR
+	w    vk.DWalk
+	k    int    // the fault strikes while the answer of call k is on its way back
+	dec  string // what the first matching response rule says about that answer: accept | reject | reask
+}
+
+func verifC07FaultPlanFor(rr *rand.Rand, p *vk.DProg, qs []vk.DQuestion, tags []string, anyDecision bool) *verifC07FaultPlan {
+	tries := 0
+	for _, q := range qs {
+		if !strings.HasSuffix(q.Name, ".") {
+			continue
+		}
+		if tries++; tries > 10 {
+			break
+		}
+		book := map[string][]vk.DRR{}
+		for _, tg := range tags {
+			book[tg] = vk.DProbeAnswer(p, q, rr)
+		}
+		w := vk.RefDnsWalk(p, q, book, MaxDnsLookupDepth)
+		if len(w.Calls) == 0 {
+			continue
+		}
+		var decs []string
+		var hot []int
+		for k, tg := range w.Calls {
+			d, _ := vk.RefDnsResponse(p, q, vk.AnswerIPs(book[tg]), tg)
+			switch d {
+			case "accept", "reject":
+			default:
+				d = "reask"
+			}
+			decs = append(decs, d)
+			// a fault is worth injecting where routing the answer changes what the client gets
+			if d != "accept" && len(book[tg]) > 0 {
+				hot = append(hot, k)
+			}
+		}
+		switch {
+		case len(hot) > 0:
+			k := hot[rr.IntN(len(hot))]
+			return &verifC07FaultPlan{q: q, book: book, w: w, k: k, dec: decs[k]}
+		case anyDecision:
+			k := rr.IntN(len(w.Calls))
+			return &verifC07FaultPlan{q: q, book: book, w: w, k: k, dec: decs[k]}
+		}
+	}
+	return nil
+}
+
+type verifC07FaultObs struct {
+	Phase string
+	Qname string
+	Obs   verifC07Obs
+}
+
+func verifC07FaultCase(m *vk.Monitor, rr *rand.Rand, p *vk.DProg, b *verifC07Built, pl *verifC07FaultPlan, mode string, n *verifC07Net, from *udpRequest) {
+	gen1, cancelGen1 := context.WithCancel(context.Background())
+	defer cancelGen1()
+	clientCtx, cancelClient := context.WithCancel(context.Background())
+	defer cancelClient()
+	var wmu sync.Mutex
+	var workCtx context.Context
+	mkopt := func(lifecycle context.Context) *DnsControllerOption {
+		opt := verifC07Option()
+		opt.LifecycleContext = lifecycle
+		inner := opt.BestDialerChooser
+		// dialSend hands its own (work) context to the dialer chooser right before it forwards
+		opt.BestDialerChooser = func(ctx context.Context, req *udpRequest, up *dns.Upstream) (*dialArgument, error) {
+			wmu.Lock()
+			workCtx = ctx
+			wmu.Unlock()
+			return inner(ctx, req, up)
+		}
+		return opt
+	}
+	ctrl, err := NewDnsController(b.routing, mkopt(gen1))
+	if err != nil {
+		m.Inconclusive("NewDnsController failed: %v", err)
+		return
+	}
+	closers := []*DnsController{ctrl}
+	defer func() {
+		for _, c := range closers {
+			func() {
+				defer func() { _ = recover() }()
+				_ = c.Close()
+			}()
+		}
+	}()
+
+	var struck, watchdog atomic.Bool
+	n.mu.Lock()
+	n.onAnswer = func(nth int, tag string) {
+		if nth != pl.k || !struck.CompareAndSwap(false, true) {
+			return
+		}
+		wmu.Lock()
+		wc := workCtx
+		wmu.Unlock()
+		switch mode {
+		case "generation-cancelled":
+			cancelGen1()
+		case "client-cancelled":
+			cancelClient()
+			return
+		}
+		if wc == nil {
+			return
+		}
+		select {
+		case <-wc.Done():
+		case <-time.After(40 * time.Second):
+			watchdog.Store(true)
+		}
+	}
+	n.mu.Unlock()
+
+	m.Eval(1)
+	m.Count("l2f_cases", 1)
+	m.Count("l2f_mode_"+mode, 1)
+	switch pl.dec {
+	case "accept":
+		m.Count("l2f_fault_while_answer_to_be_accepted", 1)
+	case "reject":
+		m.Count("l2f_fault_while_answer_to_be_rejected", 1)
+	default:
+		m.Count("l2f_fault_while_answer_to_be_reasked", 1)
+	}
+	m.Distinct(fmt.Sprintf("L2F|%s|k=%d/%d|%s|%s", mode, pl.k, len(pl.w.Calls), pl.dec, pl.w.Final))
+
+	var hist []verifC07FaultObs
+	wit := func() map[string]any {
+		bk := map[string][]string{}
+		for k, v := range pl.book {
+			bk[k] = verifC07WantStrings(v)
+		}
+		w := pl.w
+		return map[string]any{"text": p.Text(), "qname": pl.q.Name, "qtype": pl.q.Qtype, "upstream_answers": bk,
+			"fault": map[string]any{"kind": mode, "while_answer_of_call": pl.k, "from_upstream": w.Calls[pl.k], "first_matching_response_rule_says": pl.dec},
+			"expected": map[string]any{"calls": w.Calls, "final": w.Final, "answer": verifC07WantStrings(w.Answer), "request_rule": w.ReqRule, "response_rules": w.RespRules},
+			"observed": hist}
+	}
+	id := uint16(7000)
+	ask := func(ctx context.Context, c *DnsController, phase string, strict bool, respell bool) bool {
+		q := pl.q
+		if respell {
+			q.Name = verifC07Respell(q.Name, rr)
+		}
+		id++
+		o := verifC07AskCtx(ctx, c, n, from, q, pl.book, id)
+		hist = append(hist, verifC07FaultObs{Phase: phase, Qname: q.Name, Obs: o})
+		return verifC07FaultJudge(m, phase, strict, q, pl, o, wit)
+	}
+
+	ok := ask(clientCtx, ctrl, "faulted-ask", false, false)
+	n.mu.Lock()
+	n.onAnswer = nil
+	n.mu.Unlock()
+	switch {
+	case !ok:
+		return
+	case watchdog.Load():
+		m.Count("l2f_ambiguous_watchdog", 1)
+		return
+	case !struck.Load():
+		// the walk never got to call k: nothing was injected (the main flow judges plain walks)
+		m.Count("l2f_fault_point_not_reached", 1)
+		return
+	}
+	m.Count("l2f_fault_struck", 1)
+	switch mode {
+	case "generation-cancelled":
+		// a client retries while the retired generation is still the one it reaches
+		if !ask(context.Background(), ctrl, "retry-on-retired-generation", false, rr.IntN(2) == 0) {
+			return
+		}
+		// reload: same section, new generation on the same store (ControlPlane's reuse path)
+		b2, err := verifC07Build(p)
+		if err != nil {
+			m.Violation("build-error", "well-formed generated dns section rejected or crashed: "+err.Error(), map[string]any{"text": p.Text(), "error": err.Error()})
+			return
+		}
+		next, err := ctrl.ReuseForReload(mkopt(context.Background()), b2.routing)
+		if err != nil || next == nil {
+			m.Count("l2f_reuse_for_reload_failed", 1)
+			return
+		}
+		closers = append(closers, next)
+		ask(context.Background(), next, "successor-generation", true, rr.IntN(2) == 0)
+	case "client-cancelled":
+		ask(context.Background(), ctrl, "retry-after-client-cancelled", true, rr.IntN(2) == 0)
+	case "budget-expired":
+		ask(context.Background(), ctrl, "retry-after-budget-expired", true, rr.IntN(2) == 0)
+	}
+}
+
+// verifC07FaultJudge: strict = the controller asked is healthy (no fault pending), the reference
+// outcome is due; otherwise only what a client may never be given is judged.
+func verifC07FaultJudge(m *vk.Monitor, phase string, strict bool, asked vk.DQuestion, pl *verifC07FaultPlan, o verifC07Obs, wit func() map[string]any) bool {
+	w := pl.w
+	if o.Panic != "" {
+		m.Violation("fault/panic", "DNS handler panicked: "+o.Panic, wit())
+		return false
+	}
+	for _, c := range o.Calls {
+		if c.Name != asked.Name || c.Qtype != asked.Qtype {
+			m.Violation("fault/question-altered", "an upstream received a different question than the client asked", wit())
+			return false
+		}
+	}
+	// what the client was given
+	if o.Replied && len(o.Answer) > 0 {
+		switch w.Final {
+		case "accept":
+			if !verifC07SameStrings(o.Answer, verifC07WantStrings(w.Answer)) {
+				m.Violation("fault/unaccepted-answer-served/"+phase,
+					fmt.Sprintf("client was given %v; routed by the first matching response rules the upstream answers end in %v from %s (ask: %s; the fault struck while the answer of %s, to be %sed, was on its way back)",
+						o.Answer, verifC07WantStrings(w.Answer), w.Calls[len(w.Calls)-1], phase, w.Calls[pl.k], pl.dec), wit())
+				return false
+			}
+		case "reject":
+			m.Violation("fault/rejected-answer-served/"+phase,
+				fmt.Sprintf("client was given %v although the first matching response rule rejects (empties) the answer (ask: %s; the fault struck while the answer of %s, to be %sed, was on its way back)", o.Answer, phase, w.Calls[pl.k], pl.dec), wit())
+			return false
+		case "too-deep":
+			m.Count("l2f_too_deep_replied_with_records", 1)
+		}
+	}
+	got := verifC07Tags(o.Calls)
+	if !strict {
+		if len(got) > len(w.Calls) || !verifC07SameStrings(got, w.Calls[:len(got)]) {
+			m.Violation("fault/wrong-upstream-sequence/"+phase, fmt.Sprintf("upstream call sequence %v is not a prefix of the reference %v", got, w.Calls), wit())
+			return false
+		}
+		switch {
+		case o.Replied && len(o.Answer) > 0:
+			m.Count("l2f_"+phase+"_reference_answer", 1)
+		case o.Replied:
+			m.Count("l2f_"+phase+"_empty_reply", 1)
+		default:
+			m.Count("l2f_"+phase+"_failed", 1)
+		}
+		m.Count("l2f_judged_"+phase, 1)
+		return true
+	}
+	if strings.Contains(o.Err, "context deadline exceeded") || strings.Contains(o.Err, "context canceled") {
+		// dae's own budgets fired on a healthy controller whose upstreams answer at once: the machine stalled
+		m.Count("l2f_ambiguous_handler_timeout", 1)
+		return true
+	}
+	if len(got) != 0 && !verifC07SameStrings(got, w.Calls) {
+		m.Violation("fault/wrong-upstream-sequence/"+phase, fmt.Sprintf("upstream call sequence %v, reference %v (or none, when the routed answer was kept)", got, w.Calls), wit())
+		return false
+	}
+	switch w.Final {
+	case "accept":
+		if !o.Replied || !verifC07SameStrings(o.Answer, verifC07WantStrings(w.Answer)) {
+			m.Violation("fault/accept-answer-differs/"+phase, fmt.Sprintf("accepted answer must be the answering upstream's: want %v got %v (replied=%v err=%q)", verifC07WantStrings(w.Answer), o.Answer, o.Replied, o.Err), wit())
+			return false
+		}
+	case "reject":
+		if !o.Replied || len(o.Answer) != 0 {
+			m.Violation("fault/reject-not-empty/"+phase, fmt.Sprintf("reject must be answered with an empty answer; replied=%v answer=%v err=%q", o.Replied, o.Answer, o.Err), wit())
+			return false
+		}
+	}
+	if len(got) == 0 {
+		m.Count("l2f_"+phase+"_served_without_asking_upstreams", 1)
+	} else {
+		m.Count("l2f_"+phase+"_walked_the_reference_sequence", 1)
+	}
+	m.Count("l2f_judged_"+phase, 1)
+	return true
 }
